@@ -61,7 +61,7 @@ static int classify(struct dfs* d, size_t ntok, rdecode* rd) {
 static unsigned long dfs_nodes;
 static void rec(struct dfs* d, size_t ntok, size_t lasttok) {
   rdecode rd;
-  if ((++dfs_nodes & 0xfffff) == 0 && vf_deadline_left() < 0) { /* global deadline: stop, and say so */
+  if ((++dfs_nodes & 0x3ff) == 0 && vf_deadline_left() < 0) { /* global deadline: stop, and say so */
     vf_not_exhaustive("global deadline reached inside a DFS unit: the remaining subtree of that unit was not explored");
     d->k = 0;
   }
@@ -98,6 +98,47 @@ void vf_dfs_unit(const vf_alphabet* a, unsigned k, uint64_t unit, size_t L, uint
   rec(&d, 2, t2);
 }
 
+/* B*(n): every byte string of length <= n none of whose proper prefixes is already decided (accepted, or rejected for good) by the
+ * reference decoder; what is pruned is "decided prefix + arbitrary bytes", whose verdict cannot change (hard errors are final; bytes
+ * after an accepted item are C14's subject) */
+static void bstar_rec(uint8_t* b, size_t n, unsigned nmax, size_t L, uint64_t cap, vf_bytes_fn fn, void* ctx) {
+  fn(b, n, ctx);
+  if (n >= nmax) return;
+  rdecode rd;
+  ref_arena_reset();
+  ref_decode(b, n, L, cap, NULL, &rd);
+  bool open = false;
+  if (!rd.ok)
+    for (int i = 0; i < rd.nverd; i++)
+      if (rd.verd[i].code == R_NEDATA) open = true;
+  if (!open) return;
+  if ((++dfs_nodes & 0x3ff) == 0 && vf_deadline_left() < 0) { vf_not_exhaustive("global deadline reached inside a B*(n) unit"); return; }
+  for (unsigned v = 0; v < 256; v++) {
+    b[n] = (uint8_t)v;
+    bstar_rec(b, n + 1, nmax, L, cap, fn, ctx);
+  }
+}
+void vf_bstar_unit(unsigned nmax, uint64_t unit, size_t L, uint64_t cap, vf_bytes_fn fn, void* ctx) {
+  uint8_t b[16];
+  if (nmax > 12) nmax = 12;
+  if (unit == 65536) {
+    fn(b, 0, ctx);
+    for (unsigned a = 0; a < 256; a++) { b[0] = (uint8_t)a; fn(b, 1, ctx); }
+    return;
+  }
+  b[0] = (uint8_t)(unit >> 8);
+  b[1] = (uint8_t)unit;
+  /* the two-byte string exists in B* only if its one-byte prefix is still open */
+  rdecode rd;
+  ref_arena_reset();
+  ref_decode(b, 1, L, cap, NULL, &rd);
+  bool open = false;
+  if (!rd.ok)
+    for (int i = 0; i < rd.nverd; i++)
+      if (rd.verd[i].code == R_NEDATA) open = true;
+  if (!open) return;
+  bstar_rec(b, 2, nmax, L, cap, fn, ctx);
+}
 uint64_t vf_bn_units(void) { return 65537; }
 void vf_bn_unit(unsigned nmax, uint64_t unit, vf_bytes_fn fn, void* ctx) {
   uint8_t b[8];
